@@ -203,3 +203,234 @@ package dilithium
 //@ lemma dilithium.L_mont_witness[C12] : forall a :: (a - spec.MontT(a)*Q) % 4294967296 == 0
 //@ lemma dilithium.L_p2r[C12] : forall r :: 0 <= r && r < Q ==> r == spec.P2R_hi(r)*8192 + spec.P2R_lo(r) && -4096 < spec.P2R_lo(r) && spec.P2R_lo(r) <= 4096
 //@ lemma dilithium.L_decompose[C12] : forall r :: 0 <= r && r < Q ==> (r - (spec.HighBits(r)*2*GAMMA2 + spec.LowBits(r))) % Q == 0 && -GAMMA2 <= spec.LowBits(r) && spec.LowBits(r) <= GAMMA2 && 0 <= spec.HighBits(r) && spec.HighBits(r) < 16
+
+// ---- bit packing (C13).  Specification: FIPS 204 SimpleBitPack/BitPack = "the packed bytes, read as a
+// little-endian integer, equal the coefficients' offsets read as little-endian base-2^b digits". ----
+
+//@ pred le3(r, o) := r[o] + 256*r[o+1] + 65536*r[o+2]
+//@ pred le5(r, o) := r[o] + 256*r[o+1] + 65536*r[o+2] + 16777216*r[o+3] + 4294967296*r[o+4]
+//@ pred le13(r, o) := r[o] + 256*r[o+1] + 65536*r[o+2] + 16777216*r[o+3] + 4294967296*r[o+4] + 1099511627776*r[o+5] + 281474976710656*r[o+6] + 72057594037927936*r[o+7] + 18446744073709551616*r[o+8] + 4722366482869645213696*r[o+9] + 1208925819614629174706176*r[o+10] + 309485009821345068724781056*r[o+11] + 79228162514264337593543950336*r[o+12]
+//@ pred dig8x3(c, o, d) := (d - c[o]) + 8*(d - c[o+1]) + 64*(d - c[o+2]) + 512*(d - c[o+3]) + 4096*(d - c[o+4]) + 32768*(d - c[o+5]) + 262144*(d - c[o+6]) + 2097152*(d - c[o+7])
+//@ pred dig4x10(c, o) := c[o] + 1024*c[o+1] + 1048576*c[o+2] + 1073741824*c[o+3]
+//@ pred dig8x13(c, o, d) := (d - c[o]) + 8192*(d - c[o+1]) + 67108864*(d - c[o+2]) + 549755813888*(d - c[o+3]) + 4503599627370496*(d - c[o+4]) + 36893488147419103232*(d - c[o+5]) + 302231454903657293676544*(d - c[o+6]) + 2475880078570760549798248448*(d - c[o+7])
+//@ pred dig2x20(c, o, d) := (d - c[o]) + 1048576*(d - c[o+1])
+
+//@ func polyEtaPack
+//@   props C13
+//@   requires len(r) >= PolyETAPackedBytes && polyIn(a, -ETA, ETA)
+//@   ensures[C13] forall k :: 0 <= k && k < N/8 ==> le3(r, 3*k) == dig8x3(a.coeffs, 8*k, ETA)
+//@   assigns r[0:PolyETAPackedBytes]
+//@   loop 1 assert le3(r, 3*i) == dig8x3(a.coeffs, 8*i, ETA)
+//@   loop 1 invariant 0 <= i && i <= N/8
+//@   loop 1 invariant forall k :: 0 <= k && k < i ==> le3(r, 3*k) == dig8x3(a.coeffs, 8*k, ETA)
+//@   loop 1 invariant forall q :: q >= 3*i || q < 0 ==> r[q] == old(r[q])
+
+//@ func polyEtaUnpack
+//@   props C13
+//@   requires len(a) >= PolyETAPackedBytes
+//@   ensures[C13] forall k :: 0 <= k && k < N/8 ==> le3(a, 3*k) == dig8x3(r.coeffs, 8*k, ETA)
+//@   ensures polyIn(r, ETA-7, ETA)
+//@   assigns *r
+//@   loop 1 assert le3(a, 3*i) == dig8x3(r.coeffs, 8*i, ETA)
+//@   loop 1 invariant 0 <= i && i <= N/8
+//@   loop 1 invariant forall k :: 0 <= k && k < i ==> le3(a, 3*k) == dig8x3(r.coeffs, 8*k, ETA)
+//@   loop 1 invariant forall q :: 0 <= q && q < 8*i ==> ETA-7 <= r.coeffs[q] && r.coeffs[q] <= ETA
+
+//@ func polyT1Pack
+//@   props C13
+//@   requires len(r) >= PolyT1PackedBytes && polyIn(a, 0, 1023)
+//@   ensures[C13] forall k :: 0 <= k && k < N/4 ==> le5(r, 5*k) == dig4x10(a.coeffs, 4*k)
+//@   assigns r[0:PolyT1PackedBytes]
+//@   loop 1 assert le5(r, 5*i) == dig4x10(a.coeffs, 4*i)
+//@   loop 1 invariant 0 <= i && i <= N/4
+//@   loop 1 invariant forall k :: 0 <= k && k < i ==> le5(r, 5*k) == dig4x10(a.coeffs, 4*k)
+//@   loop 1 invariant forall q :: q >= 5*i || q < 0 ==> r[q] == old(r[q])
+
+//@ func polyT1Unpack
+//@   props C13
+//@   requires len(a) >= PolyT1PackedBytes
+//@   ensures[C13] forall k :: 0 <= k && k < N/4 ==> le5(a, 5*k) == dig4x10(r.coeffs, 4*k)
+//@   ensures polyIn(r, 0, 1023)
+//@   assigns *r
+//@   loop 1 assert le5(a, 5*i) == dig4x10(r.coeffs, 4*i)
+//@   loop 1 invariant 0 <= i && i <= N/4
+//@   loop 1 invariant forall k :: 0 <= k && k < i ==> le5(a, 5*k) == dig4x10(r.coeffs, 4*k)
+//@   loop 1 invariant forall q :: 0 <= q && q < 4*i ==> 0 <= r.coeffs[q] && r.coeffs[q] <= 1023
+
+//@ pred t0l0(b, o) := b[o] + (b[o+1] % 32)*256
+//@ pred t0l1(b, o) := b[o+1]/32 + b[o+2]*8 + (b[o+3] % 4)*2048
+//@ pred t0l2(b, o) := b[o+3]/4 + (b[o+4] % 128)*64
+//@ pred t0l3(b, o) := b[o+4]/128 + b[o+5]*2 + (b[o+6] % 16)*512
+//@ pred t0l4(b, o) := b[o+6]/16 + b[o+7]*16 + (b[o+8] % 2)*4096
+//@ pred t0l5(b, o) := b[o+8]/2 + (b[o+9] % 64)*128
+//@ pred t0l6(b, o) := b[o+9]/64 + b[o+10]*4 + (b[o+11] % 8)*1024
+//@ pred t0l7(b, o) := b[o+11]/8 + b[o+12]*32
+//@ pred t0lanesA(c, co, b, o) := 4096 - c[co] == t0l0(b, o) && 4096 - c[co+1] == t0l1(b, o) && 4096 - c[co+2] == t0l2(b, o) && 4096 - c[co+3] == t0l3(b, o)
+//@ pred t0lanesB(c, co, b, o) := 4096 - c[co+4] == t0l4(b, o) && 4096 - c[co+5] == t0l5(b, o) && 4096 - c[co+6] == t0l6(b, o) && 4096 - c[co+7] == t0l7(b, o)
+
+//@ func polyT0Pack
+//@   props C13
+//@   requires len(r) >= PolyT0PackedBytes && polyIn(a, -4095, 4096)
+//@   ensures[C13] forall k :: 0 <= k && k < N/8 ==> le13(r, 13*k) == dig8x13(a.coeffs, 8*k, 4096)
+//@   assigns r[0:PolyT0PackedBytes]
+//@   loop 1 assert 4096 - a.coeffs[8*i+0] == t0l0(r, 13*i)
+//@   loop 1 assert 4096 - a.coeffs[8*i+1] == t0l1(r, 13*i)
+//@   loop 1 assert 4096 - a.coeffs[8*i+2] == t0l2(r, 13*i)
+//@   loop 1 assert 4096 - a.coeffs[8*i+3] == t0l3(r, 13*i)
+//@   loop 1 assert 4096 - a.coeffs[8*i+4] == t0l4(r, 13*i)
+//@   loop 1 assert 4096 - a.coeffs[8*i+5] == t0l5(r, 13*i)
+//@   loop 1 assert 4096 - a.coeffs[8*i+6] == t0l6(r, 13*i)
+//@   loop 1 assert 4096 - a.coeffs[8*i+7] == t0l7(r, 13*i)
+//@   loop 1 assert le13(r, 13*i) == dig8x13(a.coeffs, 8*i, 4096)
+//@   loop 1 invariant 0 <= i && i <= N/8
+//@   loop 1 invariant forall k :: 0 <= k && k < i ==> le13(r, 13*k) == dig8x13(a.coeffs, 8*k, 4096)
+//@   loop 1 invariant forall q :: q >= 13*i || q < 0 ==> r[q] == old(r[q])
+
+//@ func polyT0Unpack
+//@   props C13
+//@   requires len(a) >= PolyT0PackedBytes
+//@   ensures[C13] forall k :: 0 <= k && k < N/8 ==> le13(a, 13*k) == dig8x13(r.coeffs, 8*k, 4096)
+//@   ensures polyIn(r, -4095, 4096)
+//@   assigns *r
+//@   loop 1 assert 4096 - r.coeffs[8*i+0] == t0l0(a, 13*i)
+//@   loop 1 assert 4096 - r.coeffs[8*i+1] == t0l1(a, 13*i)
+//@   loop 1 assert 4096 - r.coeffs[8*i+2] == t0l2(a, 13*i)
+//@   loop 1 assert 4096 - r.coeffs[8*i+3] == t0l3(a, 13*i)
+//@   loop 1 assert 4096 - r.coeffs[8*i+4] == t0l4(a, 13*i)
+//@   loop 1 assert 4096 - r.coeffs[8*i+5] == t0l5(a, 13*i)
+//@   loop 1 assert 4096 - r.coeffs[8*i+6] == t0l6(a, 13*i)
+//@   loop 1 assert 4096 - r.coeffs[8*i+7] == t0l7(a, 13*i)
+//@   loop 1 assert le13(a, 13*i) == dig8x13(r.coeffs, 8*i, 4096)
+//@   loop 1 invariant 0 <= i && i <= N/8
+//@   loop 1 invariant forall k :: 0 <= k && k < i ==> le13(a, 13*k) == dig8x13(r.coeffs, 8*k, 4096)
+//@   loop 1 invariant forall q :: 0 <= q && q < 8*i ==> -4095 <= r.coeffs[q] && r.coeffs[q] <= 4096
+
+//@ func polyZPack
+//@   props C13
+//@   requires len(r) >= PolyZPackedBytes && polyIn(a, -GAMMA1+1, GAMMA1)
+//@   ensures[C13] forall k :: 0 <= k && k < N/2 ==> le5(r, 5*k) == dig2x20(a.coeffs, 2*k, GAMMA1)
+//@   assigns r[0:PolyZPackedBytes]
+//@   loop 1 assert le5(r, 5*i) == dig2x20(a.coeffs, 2*i, GAMMA1)
+//@   loop 1 invariant 0 <= i && i <= N/2
+//@   loop 1 invariant forall k :: 0 <= k && k < i ==> le5(r, 5*k) == dig2x20(a.coeffs, 2*k, GAMMA1)
+//@   loop 1 invariant forall q :: q >= 5*i || q < 0 ==> r[q] == old(r[q])
+
+//@ func polyZUnpack
+//@   props C13
+//@   requires len(a) >= PolyZPackedBytes
+//@   ensures[C13] forall k :: 0 <= k && k < N/2 ==> le5(a, 5*k) == dig2x20(r.coeffs, 2*k, GAMMA1)
+//@   ensures polyIn(r, -GAMMA1+1, GAMMA1)
+//@   assigns *r
+//@   loop 1 assert le5(a, 5*i) == dig2x20(r.coeffs, 2*i, GAMMA1)
+//@   loop 1 invariant 0 <= i && i <= N/2
+//@   loop 1 invariant forall k :: 0 <= k && k < i ==> le5(a, 5*k) == dig2x20(r.coeffs, 2*k, GAMMA1)
+//@   loop 1 invariant forall q :: 0 <= q && q < 2*i ==> -GAMMA1+1 <= r.coeffs[q] && r.coeffs[q] <= GAMMA1
+
+//@ func polyW1Pack
+//@   props C13
+//@   requires len(r) >= PolyW1PackedBytes && polyIn(a, 0, 15)
+//@   ensures[C13] forall k :: 0 <= k && k < N/2 ==> r[k] == a.coeffs[2*k] + 16*a.coeffs[2*k+1]
+//@   assigns r[0:PolyW1PackedBytes]
+//@   loop 1 invariant 0 <= i && i <= N/2
+//@   loop 1 invariant forall k :: 0 <= k && k < i ==> r[k] == a.coeffs[2*k] + 16*a.coeffs[2*k+1]
+//@   loop 1 invariant forall q :: q >= i || q < 0 ==> r[q] == old(r[q])
+
+// Round trips (C13): the pack contract and the unpack contract state the same digit equation between a byte
+// block and a coefficient block; digits in range are unique, hence unpack(pack(v)) == v for every in-range v
+// at every position, and pack(unpack(b)) == b for every byte string (eta: for every canonical byte string).
+
+//@ pred inR(c, lo, hi, n) := forall q_ :: 0 <= q_ && q_ < n ==> lo <= c[q_] && c[q_] <= hi
+
+//@ lemma dilithium.L_rt_eta[C13] : forall A:arr, R:arr, B:arr :: inR(A, -ETA, ETA, N) && inR(R, ETA-7, ETA, N) && (forall k :: 0 <= k && k < N/8 ==> le3(B, 3*k) == dig8x3(A, 8*k, ETA)) && (forall k :: 0 <= k && k < N/8 ==> le3(B, 3*k) == dig8x3(R, 8*k, ETA)) ==> (forall k :: 0 <= k && k < N/8 ==> A[8*k] == R[8*k] && A[8*k+1] == R[8*k+1] && A[8*k+2] == R[8*k+2] && A[8*k+3] == R[8*k+3] && A[8*k+4] == R[8*k+4] && A[8*k+5] == R[8*k+5] && A[8*k+6] == R[8*k+6] && A[8*k+7] == R[8*k+7])
+//@ lemma dilithium.L_rt_t1[C13] : forall A:arr, R:arr, B:arr :: inR(A, 0, 1023, N) && inR(R, 0, 1023, N) && (forall k :: 0 <= k && k < N/4 ==> le5(B, 5*k) == dig4x10(A, 4*k)) && (forall k :: 0 <= k && k < N/4 ==> le5(B, 5*k) == dig4x10(R, 4*k)) ==> (forall k :: 0 <= k && k < N/4 ==> A[4*k] == R[4*k] && A[4*k+1] == R[4*k+1] && A[4*k+2] == R[4*k+2] && A[4*k+3] == R[4*k+3])
+//@ lemma dilithium.L_rt_t0[C13] : forall A:arr, R:arr, B:arr :: inR(A, -4095, 4096, N) && inR(R, -4095, 4096, N) && (forall k :: 0 <= k && k < N/8 ==> le13(B, 13*k) == dig8x13(A, 8*k, 4096)) && (forall k :: 0 <= k && k < N/8 ==> le13(B, 13*k) == dig8x13(R, 8*k, 4096)) ==> (forall k :: 0 <= k && k < N/8 ==> A[8*k] == R[8*k] && A[8*k+1] == R[8*k+1] && A[8*k+2] == R[8*k+2] && A[8*k+3] == R[8*k+3] && A[8*k+4] == R[8*k+4] && A[8*k+5] == R[8*k+5] && A[8*k+6] == R[8*k+6] && A[8*k+7] == R[8*k+7])
+//@ lemma dilithium.L_rt_z[C13] : forall A:arr, R:arr, B:arr :: inR(A, -GAMMA1+1, GAMMA1, N) && inR(R, -GAMMA1+1, GAMMA1, N) && (forall k :: 0 <= k && k < N/2 ==> le5(B, 5*k) == dig2x20(A, 2*k, GAMMA1)) && (forall k :: 0 <= k && k < N/2 ==> le5(B, 5*k) == dig2x20(R, 2*k, GAMMA1)) ==> (forall k :: 0 <= k && k < N/2 ==> A[2*k] == R[2*k] && A[2*k+1] == R[2*k+1])
+//@ lemma dilithium.L_canon_t1[C13] : forall A:arr, B:arr, C:arr :: inR(B, 0, 255, PolyT1PackedBytes) && inR(C, 0, 255, PolyT1PackedBytes) && (forall k :: 0 <= k && k < N/4 ==> le5(B, 5*k) == dig4x10(A, 4*k)) && (forall k :: 0 <= k && k < N/4 ==> le5(C, 5*k) == dig4x10(A, 4*k)) ==> (forall k :: 0 <= k && k < N/4 ==> B[5*k] == C[5*k] && B[5*k+1] == C[5*k+1] && B[5*k+2] == C[5*k+2] && B[5*k+3] == C[5*k+3] && B[5*k+4] == C[5*k+4])
+//@ lemma dilithium.L_canon_z[C13,C05] : forall A:arr, B:arr, C:arr :: inR(B, 0, 255, PolyZPackedBytes) && inR(C, 0, 255, PolyZPackedBytes) && (forall k :: 0 <= k && k < N/2 ==> le5(B, 5*k) == dig2x20(A, 2*k, GAMMA1)) && (forall k :: 0 <= k && k < N/2 ==> le5(C, 5*k) == dig2x20(A, 2*k, GAMMA1)) ==> (forall k :: 0 <= k && k < N/2 ==> B[5*k] == C[5*k] && B[5*k+1] == C[5*k+1] && B[5*k+2] == C[5*k+2] && B[5*k+3] == C[5*k+3] && B[5*k+4] == C[5*k+4])
+//@ lemma dilithium.L_canon_t0[C13] : forall A:arr, B:arr, C:arr :: inR(B, 0, 255, PolyT0PackedBytes) && inR(C, 0, 255, PolyT0PackedBytes) && (forall k :: 0 <= k && k < N/8 ==> le13(B, 13*k) == dig8x13(A, 8*k, 4096)) && (forall k :: 0 <= k && k < N/8 ==> le13(C, 13*k) == dig8x13(A, 8*k, 4096)) ==> (forall k :: 0 <= k && k < N/8 ==> le13(B, 13*k) == le13(C, 13*k))
+//@ lemma dilithium.L_rt_w1[C13] : forall x0, x1, y0, y1 :: 0 <= x0 && x0 < 16 && 0 <= x1 && x1 < 16 && 0 <= y0 && y0 < 16 && 0 <= y1 && y1 < 16 && x0 + 16*x1 == y0 + 16*y1 ==> x0 == y0 && x1 == y1
+
+// ---- key layouts (C13): rho | t1 ;  rho | key | tr | s1 | s2 | t0 ----
+
+//@ pred vecKIn(v, lo, hi) := forall i_, k_ :: 0 <= i_ && i_ < K && 0 <= k_ && k_ < N ==> lo <= v.vec[i_].coeffs[k_] && v.vec[i_].coeffs[k_] <= hi
+//@ pred vecLIn(v, lo, hi) := forall i_, k_ :: 0 <= i_ && i_ < L && 0 <= k_ && k_ < N ==> lo <= v.vec[i_].coeffs[k_] && v.vec[i_].coeffs[k_] <= hi
+//@ pred pkT1(pkb, t1, n) := forall i_, k_ :: 0 <= i_ && i_ < n && 0 <= k_ && k_ < N/4 ==> le5(pkb, SeedBytes + i_*PolyT1PackedBytes + 5*k_) == dig4x10(t1.vec[i_].coeffs, 4*k_)
+//@ pred skEta(skb, base, s, n) := forall i_, k_ :: 0 <= i_ && i_ < n && 0 <= k_ && k_ < N/8 ==> le3(skb, base + i_*PolyETAPackedBytes + 3*k_) == dig8x3(s.vec[i_].coeffs, 8*k_, ETA)
+//@ pred skT0(skb, base, t0, n) := forall i_, k_ :: 0 <= i_ && i_ < n && 0 <= k_ && k_ < N/8 ==> le13(skb, base + i_*PolyT0PackedBytes + 13*k_) == dig8x13(t0.vec[i_].coeffs, 8*k_, 4096)
+
+//@ func packPk
+//@   props C13
+//@   requires vecKIn(t1, 0, 1023)
+//@   ensures[C13] pkb[0:SeedBytes] == rho[0:SeedBytes] && pkT1(pkb, t1, K)
+//@   assigns *pkb
+//@   loop 1 invariant 0 <= i && i <= K && len(pk) == K*PolyT1PackedBytes && off(pk) == SeedBytes
+//@   loop 1 invariant pkb[0:SeedBytes] == rho[0:SeedBytes] && pkT1(pkb, t1, i)
+
+//@ func unpackPk
+//@   props C13
+//@   ensures[C13] rho[0:SeedBytes] == pkb[0:SeedBytes] && pkT1(pkb, t1, K)
+//@   ensures vecKIn(t1, 0, 1023)
+//@   assigns *rho, *t1
+//@   loop 1 invariant 0 <= i && i <= K && len(pk) == K*PolyT1PackedBytes && off(pk) == SeedBytes
+//@   loop 1 invariant rho[0:SeedBytes] == pkb[0:SeedBytes] && pkT1(pkb, t1, i)
+//@   loop 1 invariant forall i_, k_ :: 0 <= i_ && i_ < i && 0 <= k_ && k_ < N ==> 0 <= t1.vec[i_].coeffs[k_] && t1.vec[i_].coeffs[k_] <= 1023
+
+//@ func packSk
+//@   props C13
+//@   requires vecLIn(s1, -ETA, ETA) && vecKIn(s2, -ETA, ETA) && vecKIn(t0, -4095, 4096)
+//@   ensures[C13] skb[0:32] == rho[0:32] && skb[32:64] == key[0:32] && skb[64:96] == tr[0:32]
+//@   ensures[C13] skEta(skb, 96, s1, L) && skEta(skb, 96 + L*PolyETAPackedBytes, s2, K) && skT0(skb, 96 + (L+K)*PolyETAPackedBytes, t0, K)
+//@   assigns *skb
+//@   loop 1 invariant 0 <= i && i <= L && off(sk) == 96 && len(sk) == CryptoSecretKeyBytes - 96
+//@   loop 1 invariant skb[0:32] == rho[0:32] && skb[32:64] == key[0:32] && skb[64:96] == tr[0:32] && skEta(skb, 96, s1, i)
+//@   loop 2 invariant 0 <= i && i <= K && off(sk) == 96 + L*PolyETAPackedBytes && len(sk) == CryptoSecretKeyBytes - 96 - L*PolyETAPackedBytes
+//@   loop 2 invariant skb[0:32] == rho[0:32] && skb[32:64] == key[0:32] && skb[64:96] == tr[0:32] && skEta(skb, 96, s1, L) && skEta(skb, 96 + L*PolyETAPackedBytes, s2, i)
+//@   loop 3 invariant 0 <= i && i <= K && off(sk) == 96 + (L+K)*PolyETAPackedBytes && len(sk) == K*PolyT0PackedBytes
+//@   loop 3 invariant skb[0:32] == rho[0:32] && skb[32:64] == key[0:32] && skb[64:96] == tr[0:32] && skEta(skb, 96, s1, L) && skEta(skb, 96 + L*PolyETAPackedBytes, s2, K) && skT0(skb, 96 + (L+K)*PolyETAPackedBytes, t0, i)
+
+//@ func unpackSk
+//@   props C13
+//@   ensures[C13] rho[0:32] == skb[0:32] && key[0:32] == skb[32:64] && tr[0:32] == skb[64:96]
+//@   ensures[C13] skEta(skb, 96, s1, L) && skEta(skb, 96 + L*PolyETAPackedBytes, s2, K) && skT0(skb, 96 + (L+K)*PolyETAPackedBytes, t0, K)
+//@   ensures vecLIn(s1, ETA-7, ETA) && vecKIn(s2, ETA-7, ETA) && vecKIn(t0, -4095, 4096)
+//@   assigns *rho, *tr, *key, *t0, *s1, *s2
+//@   loop 1 invariant 0 <= i && i <= L && off(sk) == 96 && len(sk) == CryptoSecretKeyBytes - 96
+//@   loop 1 invariant skEta(skb, 96, s1, i)
+//@   loop 1 invariant forall i_, k_ :: 0 <= i_ && i_ < i && 0 <= k_ && k_ < N ==> ETA-7 <= s1.vec[i_].coeffs[k_] && s1.vec[i_].coeffs[k_] <= ETA
+//@   loop 2 invariant 0 <= i && i <= K && off(sk) == 96 + L*PolyETAPackedBytes && len(sk) == CryptoSecretKeyBytes - 96 - L*PolyETAPackedBytes
+//@   loop 2 invariant skEta(skb, 96 + L*PolyETAPackedBytes, s2, i)
+//@   loop 2 invariant forall i_, k_ :: 0 <= i_ && i_ < i && 0 <= k_ && k_ < N ==> ETA-7 <= s2.vec[i_].coeffs[k_] && s2.vec[i_].coeffs[k_] <= ETA
+//@   loop 3 invariant 0 <= i && i <= K && off(sk) == 96 + (L+K)*PolyETAPackedBytes && len(sk) == K*PolyT0PackedBytes
+//@   loop 3 invariant skT0(skb, 96 + (L+K)*PolyETAPackedBytes, t0, i)
+//@   loop 3 invariant forall i_, k_ :: 0 <= i_ && i_ < i && 0 <= k_ && k_ < N ==> -4095 <= t0.vec[i_].coeffs[k_] && t0.vec[i_].coeffs[k_] <= 4096
+
+// ---- signature layout and hint encoding (C13, C05): c~ | z | hint positions (OMEGA bytes) | row end counts (K bytes).
+// canonical(s, o): FIPS 204 HintBitUnpack's acceptance condition on the OMEGA+K trailer at offset o:
+// row end counts are non-decreasing and at most OMEGA, positions are strictly increasing inside each row,
+// unused position bytes are zero. ----
+
+//@ pred HOFF() := SeedBytes + L*PolyZPackedBytes
+//@ pred hcnt(s, o, i) := ite(i <= 0, 0, s[o + OMEGA + i - 1])
+//@ pred canonRows(s, o, n) := forall i_ :: 0 <= i_ && i_ < n ==> hcnt(s, o, i_) <= hcnt(s, o, i_+1) && hcnt(s, o, i_+1) <= OMEGA
+//@ pred canonOrder(s, o, n) := forall i_, p_ :: 0 <= i_ && i_ < n && hcnt(s, o, i_) < p_ && p_ < hcnt(s, o, i_+1) ==> s[o+p_-1] < s[o+p_]
+//@ pred canonPad(s, o) := forall p_ :: hcnt(s, o, K) <= p_ && p_ < OMEGA ==> s[o+p_] == 0
+//@ pred canonical(s, o) := canonRows(s, o, K) && canonOrder(s, o, K) && canonPad(s, o)
+//@ pred sigZ(s, z, n) := forall i_, k_ :: 0 <= i_ && i_ < n && 0 <= k_ && k_ < N/2 ==> le5(s, SeedBytes + i_*PolyZPackedBytes + 5*k_) == dig2x20(z.vec[i_].coeffs, 2*k_, GAMMA1)
+
+//@ func unpackSig
+//@   props C13 C05
+//@   ensures result == 0 || result == 1
+//@   ensures[C05,C13] result == 0 <==> canonical(sigBytes, HOFF())
+//@   ensures c[0:SeedBytes] == sigBytes[0:SeedBytes]
+//@   ensures[C13,C05] sigZ(sigBytes, z, L)
+//@   ensures vecLIn(z, -GAMMA1+1, GAMMA1)
+//@   assigns *c, *z, *h
+//@   loop 1 invariant 0 <= i && i <= L && sigZ(sigBytes, z, i)
+//@   loop 1 invariant forall i_, k_ :: 0 <= i_ && i_ < i && 0 <= k_ && k_ < N ==> -GAMMA1+1 <= z.vec[i_].coeffs[k_] && z.vec[i_].coeffs[k_] <= GAMMA1
+//@   loop 2 invariant 0 <= i && i <= K && k == hcnt(sigBytes, HOFF(), i) && k <= OMEGA
+//@   loop 2 invariant canonRows(sigBytes, HOFF(), i) && canonOrder(sigBytes, HOFF(), i)
+//@   loop 3 invariant 0 <= j && j <= N
+//@   loop 4 invariant k <= j && j <= sigBytes[HOFF() + OMEGA + i]
+//@   loop 4 invariant forall p :: k < p && p < j ==> sigBytes[HOFF()+p-1] < sigBytes[HOFF()+p]
+//@   loop 5 invariant k <= j && j <= OMEGA
+//@   loop 5 invariant forall p :: k <= p && p < j ==> sigBytes[HOFF()+p] == 0
